@@ -56,6 +56,9 @@ func expect(n *model.Node, v jv.V, depth int) *Exp {
 			if rb == nil || rb.Kind != model.KObject {
 				return &Exp{K: "skip"}
 			}
+			if len(rb.Props) == 0 {
+				continue // required-only branch
+			}
 			be := expectObject(rb, v, depth+1)
 			for k, e := range be.Props {
 				if _, ok := out.Props[k]; !ok {
